@@ -53,6 +53,7 @@ for _d in (
     {"k": "dep", "name": "e", "version": "1", "head": []},
     {"k": "dep", "name": "e2", "version": "1", "head": [{"k": "none"}], "script": [], "meta": []},
     {"k": "headc", "kids": []},
+    {"k": "dep", "name": "ns", "version": "1", "script": [{"src": "my script%.js"}], "stylesheet": [{"href": "\u00e9 b.css"}]},
 ):
     DEP_POOL.insert(len(DEP_POOL) - 1, _d)
 VOID_LEAVES = [
@@ -143,11 +144,11 @@ def pool_objects():
         lambda shape, frag, hroot, body, later, kw: {
             "o": "doc",
             "shape": shape,
-            "content": [hroot] if shape == "html" else ([dict(body, name="body")] if shape == "body" else frag),
-            "later": later if shape == "fragment" else [],
+            "content": [hroot] if shape == "html" else ([dict(body, name="body")] if shape == "body" else (([dict(body, name="head")] + frag) if shape == "head-first" else frag)),
+            "later": later if shape in ("fragment", "head-first") else [],
             "kw": kw,
         },
-        st.sampled_from(["fragment", "body", "html", "html"]),
+        st.sampled_from(["fragment", "body", "html", "html", "head-first"]),
         st.lists(st.one_of(rich_tree(1), rich_leaf()), max_size=3),
         html_root(),
         rich_tree(1),
@@ -174,7 +175,21 @@ def op_strategy():
 
 
 def purity_case():
-    return st.fixed_dictionaries({"pool": st.lists(pool_objects(), min_size=2, max_size=4), "ops": st.lists(op_strategy(), min_size=3, max_size=18)})
+    return st.fixed_dictionaries({"pool": st.lists(pool_objects(), min_size=2, max_size=4), "ops": st.lists(op_strategy(), min_size=3, max_size=18), "flaky": st.sampled_from([0, 0, 1, 2])})
+
+
+def _make_flaky(r, budget):
+    """the first budget[0] plain tagifiable objects of a pool recipe become components whose tagify() fails once"""
+    if isinstance(r, list):
+        return [_make_flaky(x, budget) for x in r]
+    if not isinstance(r, dict) or "k" not in r:
+        return r
+    if r["k"] == "tfy" and budget[0] > 0 and not r.get("repr") and not r.get("variant"):
+        budget[0] -= 1
+        return dict(r, variant="flaky")
+    if r["k"] in ("tag", "list", "headc"):
+        return dict(r, kids=[_make_flaky(x, budget) for x in r["kids"]])
+    return r
 
 
 # ---------------------------------------------------------------- purity interpreter
@@ -314,6 +329,12 @@ def body_purity(case, note):
 
 
 def _purity(case, note, tmp):
+    from hv import build as B
+
+    B.FLAKY_SEEN.clear()
+    if case.get("flaky"):
+        budget = [case["flaky"]]
+        case = dict(case, pool=[dict(p, **{k: _make_flaky(p[k], budget) for k in ("r", "content", "later") if k in p}) for p in case["pool"]])
     pool = [build_pool_obj(p) for p in case["pool"]]
     kinds = [p["o"] for p in case["pool"]]
     base = [S.snap(o) for o in pool]
@@ -329,7 +350,17 @@ def _purity(case, note, tmp):
                 memo = {k: v for k, v in memo.items() if k[0] != i}
                 classes.add("mutation-then-more-ops")
             continue
-        ok, res = apply_op(obj, kind, op, arg, tmp)
+        try:
+            ok, res = apply_op(obj, kind, op, arg, tmp)
+        except B.FlakyError:
+            # user code (a component's tagify()) failed inside a read-only operation: nothing may have changed, and
+            # the operation must work the next time it is asked
+            classes.add("operation-failed-in-user-code")
+            for j, o in enumerate(pool):
+                now = S.snap(o)
+                if now != base[j]:
+                    check(False, f"{op}({arg!r}) on pool[{i}] ({kind}), which failed in user code, changed pool[{j}] ({kinds[j]})", _diff(base[j], now))
+            continue
         if not ok:
             continue
         done.append((i, op))
@@ -345,6 +376,8 @@ def _purity(case, note, tmp):
         else:
             memo[key] = res
         p = case["pool"][i]
+        if kind == "doc" and p["shape"] == "head-first" and op in ("docrender", "save_html"):
+            classes.add("head-first-document-rendered")
         if kind == "doc" and p["shape"] == "html" and op in ("docrender", "save_html"):
             classes.add("lone-html-rendered")
             if any(S.snap(v) != S.snap(None) for _, v in p["kw"]):
@@ -512,11 +545,15 @@ def body_views(case, note):
     x = build(case["root"])
     if case["as_list"]:
         x = h.TagList(x, "tail", build(DEP_POOL[0]))
+    big = case.get("big", 0)
+    if big:
+        # renderings longer than any plausible size threshold (about 12 KiB .. 150 KiB)
+        x = h.TagList(x, h.Tag("pre", "line of text & more\n" * big), *[build(case["root"]) for _ in range(min(big // 40, 30))])
     check(h.html_dependency_render_mode == "invisible", "harness: render mode is not the default")
     a, b, c, d = str(x), repr(x), x._repr_html_(), x.render()["html"]
     check(a == b == c == d, "str / repr / _repr_html_ / render()['html'] disagree", a, b, c, d)
     check(type(a) is str and type(d) is str, "views are not plain str")
-    note(has_kind(case["root"], ("dep", "headc", "tfy")), "as-list" if case["as_list"] else "")
+    note(has_kind(case["root"], ("dep", "headc", "tfy")), "as-list" if case["as_list"] else "", "rendering>10KiB" if len(a) > 10240 else "", "rendering>64KiB" if len(a) > 65536 else "")
 
 
 # ---------------------------------------------------------------- equality
@@ -681,10 +718,10 @@ CLAUSES = [
         quick=400,
         thorough=4000,
         shards_quick=4,
-        required=("lone-html-with-kwargs-rendered", "repeated-op", "op:save_html", "op:docrender", "op:tagify", "op:as_dict", "op:serialize", "mutation-then-more-ops"),
+        required=("lone-html-with-kwargs-rendered", "repeated-op", "op:save_html", "op:docrender", "op:tagify", "op:as_dict", "op:serialize", "mutation-then-more-ops", "operation-failed-in-user-code", "head-first-document-rendered"),
         rule="see RULE",
     ),
     Clause("tagify", body_tagify, strategy=tagify_case, quick=500, thorough=8000, shards_quick=3, required=("with-tfy", "no-tfy", "mutation-after-tagify", "used-as-context-manager"), rule="see RULE"),
-    Clause("views", body_views, strategy=lambda: st.fixed_dictionaries({"root": st.one_of(rich_tree(2), html_root()), "as_list": st.booleans()}), quick=400, thorough=5000, shards_quick=2, rule="see RULE"),
+    Clause("views", body_views, strategy=lambda: st.fixed_dictionaries({"root": st.one_of(rich_tree(2), html_root()), "as_list": st.booleans(), "big": st.sampled_from([0] * 10 + [600, 4000])}), quick=400, thorough=5000, shards_quick=2, required=("rendering>10KiB", "rendering>64KiB"), rule="see RULE"),
     Clause("equality", body_equality, strategy=eq_case, quick=600, thorough=8000, shards_quick=3, required=tuple("edit:" + e for e in EDITS), rule="see RULE"),
 ]
